@@ -100,6 +100,20 @@ func c10Isolation(c *Chooser, env *Env, defective, faults bool) *Outcome {
 		}
 		o.probe("explicit_config_file", 1)
 	}
+	if !defective && !faults {
+		// -ignore options (any number of them, as a user passes them): they apply to every file of
+		// the run alike, next to the per-repository `paths` ignore patterns
+		if n := []int{0, 0, 0, 0, 1, 2, 3, 5, 6, 7}[c.Int("world.nignore", 10)]; n > 0 {
+			pats := []string{"never-matches-anything-xyz", "is unknown", "potentially untrusted", "SC2086", "not defined", `label ".+" is unknown`, "shellcheck reported", "^property "}
+			for i := 0; i < n; i++ {
+				w.Opts.Ignore = append(w.Opts.Ignore, pats[c.Int("world.ignorepat", len(pats))])
+			}
+			o.probe("ignore_options", 1)
+			if n >= 3 && n != 4 {
+				o.probe("ignore_options_3_or_more", 1)
+			}
+		}
+	}
 	if c.Weighted("world.workingdiropt", 1, 6) {
 		// a library caller that passes LinterOptions.WorkingDir while its process runs somewhere
 		// else (another repository of the world, or /): arguments are absolute
